@@ -39,10 +39,23 @@ pub struct DestState {
     pub faults_fired: usize,
     /// length of ops at the last flush that succeeded
     pub flushed_ops: usize,
+    /// failing seeks and flushes report ErrorKind::Interrupted (writes never do: write_all retries those by contract)
+    pub interrupted: bool,
+    /// a fault was delivered to a seek or a flush
+    pub fault_nonwrite: bool,
 }
 
 pub fn injected() -> io::Error {
     io::Error::new(io::ErrorKind::Other, "INJECTED fault")
+}
+
+/// the error of an operation std never retries by itself (seek, flush): any kind, EINTR's among them
+pub fn injected_kind(interrupted: bool) -> io::Error {
+    if interrupted {
+        io::Error::new(io::ErrorKind::Interrupted, "INJECTED fault (interrupted)")
+    } else {
+        injected()
+    }
 }
 
 #[derive(Clone)]
@@ -76,6 +89,12 @@ impl LogDest {
         s.persistent = persistent;
         s.partial = partial;
         s.failing_now = false;
+    }
+    pub fn set_interrupted(&self, on: bool) {
+        self.0.borrow_mut().interrupted = on;
+    }
+    pub fn fault_nonwrite(&self) -> bool {
+        self.0.borrow().fault_nonwrite
     }
     pub fn heal(&self) {
         let mut s = self.0.borrow_mut();
@@ -173,7 +192,8 @@ impl Write for LogDest {
     fn flush(&mut self) -> io::Result<()> {
         let mut s = self.0.borrow_mut();
         if s.fault() {
-            return Err(injected());
+            s.fault_nonwrite = true;
+            return Err(injected_kind(s.interrupted));
         }
         s.ops.push(Op::Flush);
         s.flushed_ops = s.ops.len();
@@ -185,7 +205,8 @@ impl Seek for LogDest {
     fn seek(&mut self, to: SeekFrom) -> io::Result<u64> {
         let mut s = self.0.borrow_mut();
         if s.fault() {
-            return Err(injected());
+            s.fault_nonwrite = true;
+            return Err(injected_kind(s.interrupted));
         }
         let np: i64 = match to {
             SeekFrom::Start(n) => n as i64,
@@ -267,6 +288,9 @@ pub struct SrcState {
     pub faults_fired: usize,
     pub reads: usize,
     pub seeks: usize,
+    /// failing seeks report ErrorKind::Interrupted (reads never do: read_exact retries those by contract)
+    pub interrupted: bool,
+    pub fault_on_seek: bool,
 }
 
 #[derive(Clone)]
@@ -287,6 +311,12 @@ impl LogSource {
     }
     pub fn set_schedule(&self, v: Vec<usize>) {
         self.0.borrow_mut().schedule = v;
+    }
+    pub fn set_interrupted(&self, on: bool) {
+        self.0.borrow_mut().interrupted = on;
+    }
+    pub fn fault_on_seek(&self) -> bool {
+        self.0.borrow().fault_on_seek
     }
     pub fn calls(&self) -> usize {
         self.0.borrow().calls
@@ -355,7 +385,8 @@ impl Seek for LogSource {
         let mut s = self.0.borrow_mut();
         s.seeks += 1;
         if s.fault() {
-            return Err(injected());
+            s.fault_on_seek = true;
+            return Err(injected_kind(s.interrupted));
         }
         let np: i64 = match to {
             SeekFrom::Start(n) => n as i64,
